@@ -24,12 +24,34 @@ def _mpg_entry(run):
     return None
 
 
+def builder_parts(ctx, L):
+    """(header byte Syms of one group, the parts that follow, send Eff, run) from the FEFF path of __send_multi_pg with one group"""
+    b = L.builder("__send_multi_pg")
+    for r in runs(ctx, b, unroll=1):
+        its = [rec for rec in r.recs if rec.ev.kind == "for" and rec.ev.pol == "iter" and rec.effects is not None]
+        grp = [rec for rec in its if ast.unparse(rec.ev.node.iter) in ("cpg_list",) or "cpg" in ast.unparse(rec.ev.node.target)]
+        if len(grp) != 1:
+            continue
+        sends = [e for _, e in r.effects() if e.kind == "call" and is_self_call(e.value, "__send_message") and e.value[2][1] == ("c", True)]
+        if not sends:
+            continue
+        d = sends[0].value[2][2]
+        while d[0] in ("pad", "sub") or (d[0] == "cat" and d[1][-1][0] == "list" and all(is_const(x) or x[0] == "ife" for x in d[1][-1][1]) and len(d[1]) > 2):
+            d = d[1] if d[0] in ("pad", "sub") else ("cat", d[1][:-1])
+        parts = d[1] if d[0] == "cat" else (d,)
+        if parts and parts[0][0] == "list" and len(parts) >= 2:
+            return parts[0][1], parts[1:], sends[0], r
+    return None
+
+
 def fit(ctx, L, rule="R-MPG-FIT", rule_hdr="R-MPG-HDR"):
     """fill accounting: guard fill <= C1 - len, update fill += C2 + len, creation C2 + len, len <= 60  =>  fill <= 64"""
     f = L.send_pgn
     n_app = n_new = 0
     C2s = set()
     for r in runs(ctx, f, unroll=2):
+        if r.term == "cut":
+            continue
         for i, e in r.effects():
             if e.kind == "store" and e.value[0] == "dict" and root_field(e.target) == TABLE:
                 n_new += 1
@@ -59,19 +81,21 @@ def fit(ctx, L, rule="R-MPG-FIT", rule_hdr="R-MPG-HDR"):
                     continue
                 C2 = int(a[1])
                 C2s.add(C2)
-                # guard literal:  not (A < fill)  with A = C1 - len
+                # fit guard: a comparison between fill and len(data) normalised to  fill <= C1 - len
                 C1 = None
                 for g, p in lits(r.guards(i)):
-                    if g[0] == "cmp" and g[1] == "<" and g[3] == fill and not p:
-                        ag = affine(g[2])
-                        if ag is not None and ag[0] == {LEN: -1}:
-                            C1 = int(ag[1])
-                    if g[0] == "cmp" and g[1] == "<" and g[2] == fill and p:
-                        ag = affine(g[3])
-                        if ag is not None and ag[0] == {LEN: -1}:
-                            C1 = int(ag[1]) - 1
+                    if g[0] != "cmp" or g[1] != "<" or not (contains(g, fill) and contains(g, LEN)):
+                        continue
+                    d = affine_diff(g[2], g[3])     # X - Y
+                    if d is None or set(d[0]) != {fill, LEN}:
+                        continue
+                    cf, cl, c = d[0][fill], d[0][LEN], d[1]
+                    if p and cf == 1 and cl == 1:          # fill + len + c < 0   ->  fill <= -c - 1 - len
+                        C1 = int(-c - 1)
+                    elif (not p) and cf == -1 and cl == -1:  # -fill - len + c >= 0 ->  fill <= c - len
+                        C1 = int(c)
                 if C1 is None:
-                    ctx.violated(rule, f, inst, "appending is not guarded by a fit test of the form fill <= C - len(data)", e.node)
+                    ctx.unknown(rule, "append path without a recognisable fit test of the form fill <= C - len(data) at %s" % loc(f, e.node))
                 elif C1 + C2 > 64:
                     ctx.violated(rule, f, inst, "fit test allows fill + %d + len <= %d: an assembled frame may be %d bytes long" % (C2, C1 + C2, C1 + C2), e.node)
                 else:
@@ -84,45 +108,44 @@ def fit(ctx, L, rule="R-MPG-FIT", rule_hdr="R-MPG-HDR"):
         ctx.unknown(rule, "buffering branches not found (new=%d, append=%d)" % (n_new, n_app))
     # header size agreement
     b = L.builder("__send_multi_pg")
-    hdr = None
-    for r in runs(ctx, b, unroll=1):
-        it = [rec for rec in r.recs if rec.ev.kind == "for" and rec.ev.pol == "iter"]
-        if len(it) != 1:
-            continue
-        apps = [e for _, e in r.effects() if e.kind == "call" and mname(e.value) == "append"]
-        ext = [e for _, e in r.effects() if e.kind == "call" and mname(e.value) == "extend"]
-        # count single-byte appends before the payload extend within the loop iteration
-        cnt = 0
-        for _, e in r.effects():
-            if e.kind == "call" and mname(e.value) == "append" and e.value[1][1][0] in ("list", "cat"):
-                if ext and e.line > ext[0].line:
-                    break
-                cnt += 1
-        hdr = cnt if hdr is None else hdr
-        break
+    bp = builder_parts(ctx, L)
+    hdr = len(bp[0]) if bp is not None else None
     p = ctx.prog.func(L.cls, "_process_multi_pg")
     offs = set()
+    data = ("p", "data")
     for r in runs(ctx, p, unroll=1):
+        plen = None
         for i, e in r.effects():
-            for x in (walk(e.value) if isinstance(e.value, tuple) else ()):
-                if x[0] == "sub" and x[2][0] == "slice" and x[1] == ("p", "data"):
-                    lo, hi = x[2][1], x[2][2]
-                    if lo is not None and is_const(lo) and hi is not None:
-                        d = affine_diff(hi, lo)
-                        offs.add(("payload", cval(lo)))
-        for name, v in r.evalr.env.items():
-            if name == "data" and v[0] == "sub" and v[2][0] == "slice" and v[2][2] is None and v[2][1] is not None:
-                a = affine(v[2][1])
-                if a is not None:
-                    offs.add(("advance", int(a[1])))
+            if e.kind == "call" and is_self_call(e.value, "__notify_subscribers"):
+                for x in walk(e.value):
+                    if x[0] == "sub" and x[2][0] == "slice" and x[1] == data and x[2][1] is not None and x[2][2] is not None:
+                        lo, hi = x[2][1], x[2][2]
+                        a = affine(lo)
+                        if a is not None and not a[0]:
+                            offs.add(("payload", int(a[1])))
+                            d = affine_diff(hi, lo)
+                            if d is not None and d[1] == 0 and len(d[0]) == 1:
+                                plen = list(d[0])[0]
+        if plen is not None:
+            for name, v in r.evalr.env.items():
+                cand = None
+                if v[0] == "sub" and v[1] == data and v[2][0] == "slice" and v[2][2] is None and v[2][1] is not None:
+                    cand = v[2][1]
+                elif v[0] == "bin":
+                    cand = v
+                if cand is not None:
+                    d = affine_diff(cand, plen)
+                    if d is not None and not d[0] and d[1] > 0:
+                        offs.add(("advance", int(d[1])))
         for g, pol in lits(r.guards()):
-            if g[0] == "cmp" and g[1] == "<" and g[3] == lensym(("p", "data")) and is_const(g[2]):
+            if g[0] == "cmp" and g[1] == "<" and g[3] == lensym(data) and is_const(g[2]):
                 offs.add(("short", cval(g[2])))
     inst = "header size agrees: builder bytes per group = fill accounting = parser offset/advance/short test"
     vals = {"builder": hdr, "accounting": sorted(C2s), "parser": sorted(offs)}
-    ok = hdr is not None and C2s == {hdr} and ("payload", hdr) in offs and ("advance", hdr) in offs and ("short", hdr) in offs \
-        and all(v == hdr for _, v in offs)
-    if ok:
+    kinds = {k for k, _ in offs}
+    if hdr is None or not C2s or not {"payload", "advance", "short"} <= kinds:
+        ctx.unknown(rule_hdr, "header size could not be read off every site: %s" % vals)
+    elif C2s == {hdr} and all(v == hdr for _, v in offs):
         ctx.holds(rule_hdr, inst, str(vals))
     else:
         ctx.violated(rule_hdr, b, inst, "the per-group header size is not the same everywhere: %s" % vals, b.node)
@@ -146,28 +169,11 @@ def header_layout(ctx, L, rule="R-LAYOUT"):
         ctx.unknown(rule, "immediate multi-PG send not found in %s" % f.qual)
         return
     b = L.builder("__send_multi_pg")
-    # builder bytes in terms of cpg fields
-    hb = None
-    for r in runs(ctx, b, unroll=1):
-        it = [rec for rec in r.recs if rec.ev.kind == "for" and rec.ev.pol == "iter"]
-        if len(it) != 1:
-            continue
-        for name, v in r.evalr.env.items():
-            pass
-        sends = [e for _, e in r.effects() if e.kind == "call" and is_self_call(e.value, "__send_message") and e.value[2][1] == ("c", True)]
-        if not sends:
-            continue
-        data = sends[0].value[2][2]
-        d = data
-        while d[0] in ("pad", "sub"):
-            d = d[1]
-        parts = d[1] if d[0] == "cat" else (d,)
-        if parts[0][0] == "list" and len(parts[0][1]) >= 4:
-            hb = (parts[0][1][:4], parts[1:] if len(parts) > 1 else (), sends[0], r)
-            break
-    if hb is None:
+    hb = builder_parts(ctx, L)
+    if hb is None or len(hb[0]) < 4:
         ctx.unknown(rule, "multi-PG builder output not recognised")
         return
+    hb = (hb[0][:4], hb[1], hb[2], hb[3])
     hbytes, rest, send_eff, brun = hb
     for r, i, d, e in cp_runs:
         pdu1 = any(g[0] == "attr" and g[2] == "is_pdu2_format" and not p for g, p in lits(r.guards(i)))
@@ -285,20 +291,29 @@ def misc(ctx, L):
     # padding content
     b = L.builder("__send_multi_pg")
     seqs = set()
+    sym_forms = []
     for r in runs_of(P, b, unroll=5, summarize_pad=False):
-        if contradictory(r):
+        if contradictory(r) or r.term == "cut":
             continue
-        it = [rec for rec in r.recs if rec.ev.kind == "for" and rec.ev.pol == "iter"]
+        it = [rec for rec in r.recs if rec.ev.kind == "for" and rec.ev.pol == "iter" and "cpg" in ast.unparse(rec.ev.node.target)]
         if len(it) != 0:
             continue
-        pads = tuple(e.value[2][0] for _, e in r.effects() if e.kind == "call" and mname(e.value) == "append" and e.value[2] and is_const(e.value[2][0]))
-        seqs.add(pads)
+        args = [e.value[2][0] for _, e in r.effects() if e.kind == "call" and mname(e.value) == "append" and e.value[2]]
+        if all(is_const(a) for a in args):
+            seqs.add(tuple(args))
+        else:
+            sym_forms.extend(a for a in args if not is_const(a))
     inst = "padding = zero service header (<= 3 x 0x00) then 0xAA: skipped by the decoder's tos == 0 / short-remainder test"
-    good = seqs and all(all(x == ("c", 0) for x in s[:3]) and all(x == ("c", 0xAA) for x in s[3:]) for s in seqs) and any(len(s) >= 4 for s in seqs)
-    if good:
-        ctx.holds("R-PAD", inst, str(sorted(len(s) for s in seqs)))
+    good = seqs and all(all(x == ("c", 0) for x in s_[:3]) and all(x == ("c", 0xAA) for x in s_[3:]) for s_ in seqs) and any(len(s_) >= 4 for s_ in seqs)
+    # `0 if index < 3 else 0xAA` over a running pad index
+    idx_form = sym_forms and all(a[0] == "ife" and a[1][0] == "cmp" and a[1][1] == "<" and a[1][3] == ("c", 3) and a[1][2][0] == "iter"
+                                 and a[2] == ("c", 0) and a[3] == ("c", 0xAA) for a in sym_forms)
+    if good or idx_form:
+        ctx.holds("R-PAD", inst, str(sorted(len(s_) for s_ in seqs)) if good else "0 if pad index < 3 else 0xAA")
+    elif sym_forms or not any(seqs):
+        ctx.unknown("R-PAD", "padding construct not recognised (%s)" % ([pretty(a)[:50] for a in sym_forms[:2]] or "no pad bytes found"))
     else:
-        ctx.violated("R-PAD", b, inst, "pad byte sequences are %s" % sorted([[cval(x) for x in s] for s in seqs])[:6], b.node)
+        ctx.violated("R-PAD", b, inst, "pad byte sequences are %s" % sorted([[cval(x) for x in s_] for s_ in seqs])[:6], b.node)
     # decoder skips padding: tos == 0 -> stop
     p = P.func(L.cls, "_process_multi_pg")
     d0 = ("sub", ("p", "data"), ("c", 0))
